@@ -1,6 +1,7 @@
 from __future__ import annotations
 
 import importlib
+import inspect
 import uuid
 from dataclasses import dataclass, field
 from types import NoneType
@@ -218,15 +219,17 @@ class SubclassJSONSerializer:
 
         try:
             module = importlib.import_module(module_name)
-        except (ImportError, ValueError) as exc:
+        except Exception as exc:
+            # a module that cannot be imported for whatever reason (not found, syntax error, an error while it runs)
             raise UnknownModuleError(module_name) from exc
 
         try:
             target_cls = getattr(module, class_name)
-        except AttributeError as exc:
+        except Exception as exc:
+            # a module level __getattr__ (lazy imports) may fail with something else than AttributeError
             raise ClassNotFoundError(class_name, module_name) from exc
 
-        if not isinstance(target_cls, type):
+        if not isinstance(target_cls, type) or inspect.isabstract(target_cls):
             raise ClassNotDeserializableError(target_cls)
 
         if issubclass(target_cls, SubclassJSONSerializer):
@@ -266,22 +269,24 @@ def to_json(obj: Union[SubclassJSONSerializer, Any]) -> JSON_RETURN_TYPE:
     :return: The JSON string
     """
 
-    if isinstance(obj, leaf_types):
-        return obj
-
-    if isinstance(obj, list_like_classes):
-        return [to_json(item) for item in obj]
-
+    # an object that has a serializer of its own is serialized by it, also when its class derives from a builtin
+    # (a str / int subclass, a named tuple, an IntEnum)
     if isinstance(obj, SubclassJSONSerializer):
         return obj.to_json()
 
     registered_json_serializer = JSONSerializableTypeRegistry().get_serializer(
         type(obj)
     )
-    if not registered_json_serializer:
-        raise ClassNotSerializableError(type(obj))
+    if registered_json_serializer:
+        return registered_json_serializer(obj)
 
-    return registered_json_serializer(obj)
+    if isinstance(obj, leaf_types):
+        return obj
+
+    if isinstance(obj, list_like_classes):
+        return [to_json(item) for item in obj]
+
+    raise ClassNotSerializableError(type(obj))
 
 
 # %% UUID serialization functions
